@@ -45,6 +45,12 @@ pub mod c14;
 #[cfg(feature = "sched")]
 pub mod c09;
 #[cfg(feature = "sched")]
+pub mod c08;
+#[cfg(feature = "sched")]
+pub mod c17;
+#[cfg(feature = "sched")]
+pub mod c06;
+#[cfg(feature = "sched")]
 pub mod c15;
 #[cfg(feature = "sched")]
 pub mod c18;
@@ -81,6 +87,12 @@ pub fn property(id: &str, ctx: &Ctx) -> Option<PropertyDef> {
         "C12" => Some(c12::def(ctx)),
         #[cfg(feature = "sched")]
         "C09" => Some(c09::def(ctx)),
+        #[cfg(feature = "sched")]
+        "C08" => Some(c08::def(ctx)),
+        #[cfg(feature = "sched")]
+        "C17" => Some(c17::def(ctx)),
+        #[cfg(feature = "sched")]
+        "C06" => Some(c06::def(ctx)),
         "C14" => Some(c14::def(ctx)),
         #[cfg(feature = "sched")]
         "C15" => Some(c15::def(ctx)),
